@@ -364,7 +364,14 @@ func cmdCheck(args []string) int {
 			os.WriteFile(filepath.Join(*verifDir, "reference_commit"), out, 0644)
 		}
 	}
-	rep := &Report{V: V, Prop: *prop, Tier: *tier, Seed: seed, Results: results, Start: start, LoadT: loadT, GenT: genT, VerifDir: *verifDir, Partial: fre2 != nil || ore2 != nil, NoEvidence: *noEvidence}
+	var bsum *BoundedSummary
+	var bviols []string
+	if fre2 == nil && ore2 == nil {
+		rd := filepath.Join(*verifDir, "replay", *prop)
+		os.MkdirAll(rd, 0755)
+		bsum, bviols = runBounded(*verifDir, *prop, *tier, loadBounded(*verifDir, *prop), rd)
+	}
+	rep := &Report{V: V, Prop: *prop, Tier: *tier, Seed: seed, Results: results, Start: start, LoadT: loadT, GenT: genT, VerifDir: *verifDir, Partial: fre2 != nil || ore2 != nil, NoEvidence: *noEvidence, Bounded: bsum, Extra: map[string]interface{}{"violations": bviols}}
 	return rep.Finish()
 }
 
